@@ -3,6 +3,7 @@ package main
 import (
 	"bytes"
 	"fmt"
+	"sort"
 	"strings"
 	"time"
 
@@ -64,6 +65,9 @@ type caseID struct {
 	K       int
 	Delta   time.Duration
 	Spacing time.Duration // between the packets before the disconnect (0 = 10 s)
+	// Rev: the rooms of a persisted session are handed to PersistSession in descending instead of ascending
+	// order (the server builds that slice from a set: the order is arbitrary)
+	Rev bool
 }
 
 func (c caseID) spacing() time.Duration {
@@ -74,11 +78,15 @@ func (c caseID) spacing() time.Duration {
 }
 
 func (c caseID) String() string {
-	return fmt.Sprintf("history %s (packets %v apart), disconnect after packet %d, reconnect %v later", c.H, c.spacing(), c.K, c.Delta)
+	o := ""
+	if c.Rev {
+		o = ", session rooms persisted in descending order"
+	}
+	return fmt.Sprintf("history %s (packets %v apart), disconnect after packet %d, reconnect %v later%s", c.H, c.spacing(), c.K, c.Delta, o)
 }
 
 func (c caseID) replay(part string) map[string]any {
-	return map[string]any{"part": part, "history": c.H.ints(), "history_text": c.H.String(), "k": c.K, "delta_ms": c.Delta.Milliseconds(), "spacing_ms": c.spacing().Milliseconds()}
+	return map[string]any{"part": part, "history": c.H.ints(), "history_text": c.H.String(), "k": c.K, "delta_ms": c.Delta.Milliseconds(), "spacing_ms": c.spacing().Milliseconds(), "rev": c.Rev}
 }
 
 // less orders cases by size: shorter history, earlier disconnect, earlier reconnection, then lexicographic.
@@ -269,7 +277,9 @@ func runAdapterCase(c caseID) (res caseResult) {
 				res.HarnessErr = "SocketRooms: unknown socket"
 				return
 			}
-			a.PersistSession(&adapter.SessionToPersist{SID: sid, PID: adapter.PrivateSessionID(sessPID[s]), Rooms: rooms.ToSlice()})
+			rs := rooms.ToSlice()
+			sort.Slice(rs, func(i, j int) bool { return (rs[i] < rs[j]) != c.Rev })
+			a.PersistSession(&adapter.SessionToPersist{SID: sid, PID: adapter.PrivateSessionID(sessPID[s]), Rooms: rs})
 			a.DeleteAll(sid)
 			store.Remove(sid)
 		}
